@@ -34,7 +34,7 @@ ANCHORS = [
     "acnportal.acnsim.interface:Interface.remaining_amp_periods",
     "acnportal.algorithms.base_algorithm:BaseAlgorithm.run",
 ]
-REQUIRED = ["invocations_judged", "invocations_without_event", "runs_judged", "mutating_twins", "active_sets_judged",
+REQUIRED = ["interface_queried_at_registration", "invocations_judged", "invocations_without_event", "runs_judged", "mutating_twins", "active_sets_judged",
             "sessions_filtered_as_satisfied", "pilot_queries_judged", "infrastructure_judged", "regime:mr-None", "regime:mr-1",
             "regime:mr-k", "inner:scripted", "inner:uncontrolled", "inner:sorted"]
 BUDGET_S = {"quick": 240, "thorough": 3000}
@@ -86,6 +86,9 @@ def scribble(x, depth=0):
         x["EXTRA"] = 1
 
 
+PREQ = {"n": 0, "failed": 0}
+
+
 def make_wrapper(inner, mutate, rec):
     from acnportal.algorithms import BaseAlgorithm
 
@@ -98,6 +101,17 @@ def make_wrapper(inner, mutate, rec):
         def register_interface(self, interface):
             super().register_interface(interface)
             self.inner.register_interface(interface)
+            # a scheduler program may look around as soon as it gets its interface (period 0, before any event has been
+            # applied); what it is shown at its first real invocation must not be affected by that
+            try:
+                interface.active_sessions()
+                interface.last_actual_charging_rate
+                interface.last_applied_pilot_signals
+                interface.infrastructure_info()
+                interface.get_prev_peak()
+                PREQ["n"] += 1
+            except Exception:
+                PREQ["failed"] += 1
 
         def schedule(self, active):
             i = self.interface
@@ -197,6 +211,8 @@ def run_case(case, obs):
         obs.violate("run_raised", f"{type(probe.exception).__name__}: {probe.exception}", **wit)
         return
     obs.ev("runs_judged")
+    obs.ev("interface_queried_at_registration", PREQ["n"])
+    PREQ["n"] = 0
     obs.ev("inner:" + d["scheduler"]["kind"])
     mr = d["scheduler"].get("mr") if d["scheduler"]["kind"] == "scripted" else 1
     obs.regime("regime:mr-None" if mr is None else "regime:mr-1" if mr == 1 else "regime:mr-k")
